@@ -9,6 +9,8 @@ import Garnish.Driver.ListDrv
 import Garnish.Driver.OptDrv
 import Garnish.Driver.RunDrv
 import Garnish.Driver.CompileDrv
+import Garnish.Driver.AccessDrv
+import Garnish.Driver.ElabDrv
 open Garnish Garnish.Proto
 
 def numCase (f : List String) : String :=
@@ -54,6 +56,8 @@ def dispatch (f : List String) : String :=
   | some "WFCHECK" => Garnish.Driver.wfProgramCase f
   | some "ABSDEPTH" => Garnish.Driver.absDepthCase f
   | some "DEPTHCHK" => Garnish.Driver.depthChkCase f
+  | some "ACCESS" => Garnish.Driver.AccessD.accessCase f
+  | some "ELAB" => Garnish.Driver.elabCase f
   | _ => "UNKNOWN-SUITE"
 
 partial def loop (h : IO.FS.Stream) (out : IO.FS.Stream) : IO Unit := do
